@@ -16,8 +16,8 @@
      s.split(c)              [split_on c s]      (never the empty list)
      re.match("^X$", s)      X must match all of s, or all of s minus ONE trailing "\n"
                              (Python's [$] also matches just before a final newline): [strip_nl]
-     IndexError on s[0]/s[1] result [IndexErr] (atom.__init__ does not catch it outside the
-                             USE-flag loop), MalformedAtom -> [Malformed]. *)
+     MalformedAtom           result [Malformed]; since /repo 3aa9a5c an empty package part is a
+                             MalformedAtom too (it used to escape as an uncaught IndexError). *)
 From Coq Require Import List NArith ZArith Bool Arith.
 Import ListNotations.
 From Verif Require Import Base.Val gen.Tables_eapi gen.Tables_C03.
@@ -364,7 +364,6 @@ Record atom_rec := {
 Inductive res : Type :=
 | Ok (a : atom_rec)
 | Malformed            (* errors.MalformedAtom *)
-| IndexErr             (* an uncaught IndexError *)
 | Unsupported.         (* EAPI not in the generated table: outside the model *)
 
 (* stage 1: the USE block.  Result: text with the block removed, the sorted deps, and the
@@ -453,16 +452,16 @@ Definition stage_slot (g : gates) (rgt : str) : option slot_part :=
     | slot => slot_body g slot (snd ar)
     end.
 
-Inductive r3 : Type := R3 (blocks strong : bool) (op cpv : str) | R3Malformed | R3Index.
+Inductive r3 : Type := R3 (blocks strong : bool) (op cpv : str) | R3Malformed.
 
 (* stage 3b: the operator prefix of the text after the blocker marks *)
 Definition stage_op (blocks strong : bool) (a2 : str) : r3 :=
   match a2 with
-  | [] => R3Index                                     (* atom[0] *)
+  | [] => R3Malformed                                 (* "package name is missing" *)
   | d :: t2 =>
       if (d =? c_lt) || (d =? c_gt) then
         match t2 with
-        | [] => R3Index                               (* atom[1] *)
+        | [] => R3 blocks strong [d] []               (* atom[1:2] == "" : bare operator, empty cpv *)
         | e :: t3 => if e =? c_eq then R3 blocks strong [d; e] t3 else R3 blocks strong [d] t2
         end
       else if d =? c_eq then
@@ -478,7 +477,7 @@ Definition stage_op (blocks strong : bool) (a2 : str) : r3 :=
 (* stage 3: blocker and operator prefixes of the text left of the first ":" *)
 Definition stage_prefix (g : gates) (atom : str) : r3 :=
   match atom with
-  | [] => R3Index                                     (* atom[0] *)
+  | [] => R3Malformed                                 (* "package name is missing" *)
   | c :: t =>
       let blocks := c =? c_bang in
       let a1 := if blocks then t else atom in
@@ -509,7 +508,6 @@ Definition parse_rest (eapi : option N) (negate : bool) (g : gates)
   | None => Malformed
   | Some (lft, p) =>
       match stage_prefix g lft with
-      | R3Index => IndexErr
       | R3Malformed => Malformed
       | R3 blocks strong op cpvstr =>
           if is_some (sp_slot p) && negb (g_slot_deps g) then Malformed
@@ -599,14 +597,12 @@ Definition encode_atom (a : atom_rec) : val :=
        VS (print_atom a) ].
 
 Definition e_malformed : str := [77;97;108;102;111;114;109;101;100;65;116;111;109].   (* "MalformedAtom" *)
-Definition e_index : str := [73;110;100;101;120;69;114;114;111;114].                 (* "IndexError" *)
 Definition e_unsupported : str := [85;110;115;117;112;112;111;114;116;101;100].      (* "Unsupported" *)
 
 Definition encode_res (r : res) : val :=
   match r with
   | Ok a => encode_atom a
   | Malformed => VErr e_malformed
-  | IndexErr => VErr e_index
   | Unsupported => VErr e_unsupported
   end.
 
